@@ -242,7 +242,7 @@ func (g *Generator) generateWithoutSaving(parents []*theTypeInfo, t reflect.Type
 		isNullable = !isRoot
 	}
 
-	if strings.HasSuffix(t.Name(), "Ref") {
+	if strings.HasSuffix(t.Name(), "Ref") && t.Kind() == reflect.Struct {
 		_, a := t.FieldByName("Ref")
 		v, b := t.FieldByName("Value")
 		if a && b {
